@@ -183,6 +183,32 @@ def run(ctx):
             cl += "/snippet@scope"
         classes[cl] = classes.get(cl, 0) + 1
 
+    # ---------------- independent oracle for "an included file has a syntax error": every module
+    # reachable from main through `include "x";` is parsed on its own (not through the linter)
+    import re as _re
+    allmods = sorted({(n, t) for _, _, mods in cases for n, t in mods.items()})
+    prep = V.run_batch([os.path.join(V.BUILD, "implrun"), "parsefile"], [t.encode().hex() for _, t in allmods], hang_s=20)
+    mod_ok = {k: (r == "ok") for k, r in zip(allmods, prep)}
+    inc_indep_checked = 0
+    for (label, main, mods), inp in zip(cases, inputs):
+        if inp is None or inp[0]:
+            continue
+        seen_m, todo, broken = set(), [main], False
+        while todo:
+            txt = todo.pop()
+            for nm in _re.findall(r'^\s*include\s+"([^"]+)"\s*;', txt, _re.M):
+                if nm in mods and nm not in seen_m:
+                    seen_m.add(nm)
+                    if mod_ok.get((nm, mods[nm])) is False:
+                        broken = True
+                    else:
+                        todo.append(mods[nm])
+        inc_indep_checked += 1
+        if broken != inp[1]:
+            viol.append((len(main), "an included module %s a syntax error (each reachable module parsed on its own) but the linter reports "
+                         "parse_error_included=%s for %s" % ("has" if broken else "has no", inp[1], label),
+                         {"label": label, "main": main, "modules": mods}, None))
+
     # ---------------- jobs: program x override set x flags
     jobs, meta = [], []
     for i, ((label, main, mods), d, inp) in enumerate(zip(cases, dirs, inputs)):
@@ -277,6 +303,7 @@ def run(ctx):
         "programs": len(cases), "program_classes": dict(sorted(classes.items())),
         "process_runs": len(jobs), "process_model_agree": agree,
         "flag_matrix_per_program_and_override_set": ["json=%d verbosity=%d: %d runs" % (k[0], k[1], n) for k, n in sorted(flagstat.items())],
+        "included_syntax_error_oracle_checked": inc_indep_checked,
         "override_sets": len(groups), "flag_independence_groups_ok": flag_groups_ok, "exit_oracle_groups_ok": exit_ok,
         "exit_nonzero_runs": sum(1 for r in results if r.get("exit")), "exit_zero_runs": sum(1 for r in results if r.get("exit") == 0),
         "violations_by_category": seen,
